@@ -95,6 +95,77 @@ pub fn m_histories(sizes: &[usize]) -> Vec<Vec<String>> {
     out
 }
 
+/// map / set histories with explicit query operations in a scrambled order between the updates (and the
+/// observation suite only every 16th step), so that a memo inside the collection is not refreshed by a
+/// fixed sweep after every update.  `set`: neighbour-step queries are included.
+pub fn m_histories_queries(sizes: &[usize], set: bool) -> Vec<Vec<String>> {
+    let mut out = vec![];
+    for &n in sizes {
+        let key = |i: usize| 2 * i + 1;
+        for (oi, (_, ins)) in orders(n).into_iter().enumerate() {
+            for (di, (_, del)) in orders(n).into_iter().enumerate() {
+                if (oi + di) % 2 == 1 {
+                    continue;
+                }
+                let mut h: Vec<String> = vec![];
+                let mut stored: Vec<usize> = vec![];
+                let mut c = oi * 7 + di * 3;
+                let mut q = |h: &mut Vec<String>, stored: &Vec<usize>, c: &mut usize| {
+                    *c += 5;
+                    let p = (*c * 7) % (2 * n + 1);
+                    match *c % 4 {
+                        0 => h.push(format!("QG({p})")),
+                        1 => h.push(format!("QF({p})")),
+                        2 if set && !stored.is_empty() => h.push(format!("QA({})", key(stored[*c % stored.len()]))),
+                        3 if set && !stored.is_empty() => h.push(format!("QB({})", key(stored[*c % stored.len()]))),
+                        _ => h.push(format!("QF({p})")),
+                    }
+                    // ask about a stored key as well (exact hits are what memos remember)
+                    if !stored.is_empty() {
+                        let k = key(stored[(*c / 3) % stored.len()]);
+                        h.push(if *c % 2 == 0 { format!("QG({k})") } else { format!("QF({k})") });
+                    }
+                };
+                for &i in ins.iter() {
+                    h.push(format!("Ins({})", key(i)));
+                    stored.push(i);
+                    q(&mut h, &stored, &mut c);
+                }
+                for (j, &i) in del.iter().enumerate() {
+                    if j % 3 == 2 {
+                        continue;
+                    }
+                    // the same key before and after its neighbour is removed
+                    let probe = key(stored[(c + j) % stored.len()]);
+                    h.push(format!("QG({probe})"));
+                    h.push(format!("QF({probe})"));
+                    h.push(if j % 2 == 0 { format!("Del({})", key(i)) } else { format!("DelH({})", key(i)) });
+                    stored.retain(|x| *x != i);
+                    if stored.is_empty() {
+                        break;
+                    }
+                    if probe != key(i) {
+                        h.push(format!("QG({probe})"));
+                        h.push(format!("QF({probe})"));
+                    }
+                    q(&mut h, &stored, &mut c);
+                }
+                h.push("QF(0)".into());
+                h.push("Clear()".into());
+                h.push(format!("QF({})", 2 * n));
+                h.push(format!("QG({})", key(ins[0])));
+                for &i in ins.iter().take(n.min(10)) {
+                    h.push(format!("Ins({})", key(i)));
+                    h.push(format!("QF({})", 2 * n));
+                    h.push(format!("QG({})", key(ins[0])));
+                }
+                out.push(h);
+            }
+        }
+    }
+    out
+}
+
 /// expiring tree histories: insert n keys with expirations 1..=5 in a pattern, then advance the clock
 /// step by step with spread-out queries of all four kinds and re-insertion of expired keys.
 pub fn k_histories(sizes: &[usize], tmax: usize) -> Vec<Vec<String>> {
